@@ -119,7 +119,10 @@ def send_trace(msg, ctx, max_len, data, as_file):
         pdus = assoc.dul.sent[0]
     except Exception as exc:      # noqa
         return None, None, None, ['send raised %s: %s' % (type(exc).__name__, exc)]
-    expected_cmd = dsutils.encode(msg.command_set, True, True)
+    try:
+        expected_cmd = cmdset.encode_dataset(msg.command_set)        # independent of the library's encoder
+    except cmdset.CmdError as exc:
+        raise Machinery('command set not encodable by the reference: %s' % exc)
     hi, lo = limbs(max_len)
     tr = [{'ev': 'Msg', 'lc': len(expected_cmd), 'ld': len(data or b''), 'maxHi': hi, 'maxLo': lo, 'ctx': ctx}]
     cmd, dat = b'', b''
